@@ -37,3 +37,61 @@ Theorem C18_log_sees_refcount_stores : forall t w x w', tag_item t w = Ret x w' 
   alog w' = AccW x :: AccR x :: AccR t :: alog w.
 Proof. exact tag_item_writes. Qed.
 Print Assumptions C18_log_sees_refcount_stores.
+
+(* ---- the read-only calls of the third layer (HHist3.v): the eight type-specific serializers
+   cbor_serialize_uint .. cbor_serialize_float_ctrl called directly ([serialize_typed]), and every predicate
+   and getter that hands out no reference ([preds3]: cbor_typeof, cbor_isa_*, cbor_is_*, the width getters,
+   cbor_bytestring_ / cbor_string_ length, code-point count, is_definite, is_indefinite, chunk_count,
+   cbor_array_ / cbor_map_ size, allocated, is_definite, is_indefinite, cbor_tag_value, cbor_refcount;
+   [vals3]: the same plus cbor_get_int, cbor_get_uint8..64, cbor_float_get_float2/4/8, cbor_float_get_float,
+   cbor_ctrl_value, cbor_get_bool).  For EVERY world, client state and handle -- no legality is asked --
+   they append only reads to the access log and leave the heap, the bump pointer, the request counter and
+   the allocator trace as they were. ---- *)
+From CB Require Import HHist2 HHist3 HHist3_proofs.
+
+Theorem C18_serialize_typed_readonly : forall s k h n, readonly (serialize_typed s k h n).
+Proof. exact serialize_typed_readonly. Qed.
+Print Assumptions C18_serialize_typed_readonly.
+Theorem C18_preds_readonly : forall s h, readonly (preds3 s h).
+Proof. exact preds3_readonly. Qed.
+Print Assumptions C18_preds_readonly.
+Theorem C18_vals_readonly : forall s h, readonly (vals3 s h).
+Proof. exact vals3_readonly. Qed.
+Print Assumptions C18_vals_readonly.
+
+(* spelled out as C18_no_writes / C18_heap_unchanged above *)
+Theorem C18_serialize_typed_no_writes : forall s k h n w r w', serialize_typed s k h n w = Ret r w' ->
+  (forall b, In (AccW b) (alog w') -> In (AccW b) (alog w)) /\ (forall b, heap w' b = heap w b) /\
+  next w' = next w /\ nreq w' = nreq w /\ trace w' = trace w.
+Proof. exact serialize_typed_no_writes. Qed.
+Print Assumptions C18_serialize_typed_no_writes.
+Theorem C18_preds_no_writes : forall s h w r w', preds3 s h w = Ret r w' ->
+  (forall b, In (AccW b) (alog w') -> In (AccW b) (alog w)) /\ (forall b, heap w' b = heap w b) /\
+  next w' = next w /\ nreq w' = nreq w /\ trace w' = trace w.
+Proof. exact preds3_no_writes. Qed.
+Print Assumptions C18_preds_no_writes.
+Theorem C18_vals_no_writes : forall s h w r w', vals3 s h w = Ret r w' ->
+  (forall b, In (AccW b) (alog w') -> In (AccW b) (alog w)) /\ (forall b, heap w' b = heap w b) /\
+  next w' = next w /\ nreq w' = nreq w /\ trace w' = trace w.
+Proof. exact vals3_no_writes. Qed.
+Print Assumptions C18_vals_no_writes.
+
+(* non-vacuity: on a tag around a negative integer the three calls return (bytes, numbers) and the log
+   gains reads only; cbor_move, by contrast, is logged as a store *)
+Example C18_layer3_nonvacuous :
+  match run_hist3 (fun _ _ => false) 8
+          [O3NewInt I8; O3SetUint I8 0 200; O3Mark true 0; O3BuildTagMove 7 0]%nat s3_0 [] world0 with
+  | Ret (s, _) w =>
+      match (r1 <- serialize_typed s KTag 1 4 ;; r2 <- preds3 s 1 ;; r3 <- vals3 s 0 ;; ret (snd r1, snd r2, snd r3)) w with
+      | Ret r w' =>
+          r = (Out (OutBytes 3 [199; 56; 200]),
+               OutVals [6; 0; 0; 0; 0; 0; 0; 1; 0; 0; 0; 0; 0; 0; 7; 1],
+               OutVals [1; 0; 1; 0; 0; 0; 0; 0; 0; 1; 0; 0; 0; 0; 0; 1; 200; 200]) /\
+          alog w' = [AccR 1; AccR 2; AccR 1; AccR 2; AccR 2] ++ alog w
+      | Fault _ => False
+      end /\
+      match move_op s 1 w with Ret _ w' => alog w' = AccW 2 :: AccR 2 :: alog w | Fault _ => False end
+  | Fault _ => False
+  end.
+Proof. vm_compute. repeat split. Qed.
+
